@@ -16,7 +16,7 @@ from vlib import chars
 STYLES = ['', 'a', 'A', 'm', 'h', 'r', 'ar', 'Ar', 'mr', 'hr', 'Ah', 'am']
 LOSSY = ['!s', '!b', '!z', 'r!s']
 
-EXOTIC = ['FC(Cl)=[C@]=C(Br)I', 'FC(Cl)=[C@@]=C(Br)I', 'FC=[C@]=CCl', 'CC=[C@@]=CF', 'CC(F)=[C@]=C(C)CC', 'C/C=C=C=C/C', 'C/C=C=C=C\\C', 'F/C(Cl)=C=C=C(/Br)I', 'C1CCCC=[C@]=CCCC1',
+EXOTIC = ['C\\1=C=C(~C/1)=C\\C', 'C/1=C=C(~C/1)=C\\C', 'FC(Cl)=[C@]=C(Br)I', 'FC(Cl)=[C@@]=C(Br)I', 'FC=[C@]=CCl', 'CC=[C@@]=CF', 'CC(F)=[C@]=C(C)CC', 'C/C=C=C=C/C', 'C/C=C=C=C\\C', 'F/C(Cl)=C=C=C(/Br)I', 'C1CCCC=[C@]=CCCC1',
           'C[C@H](O)C=[C@@]=CC', 'CC=[C@]=CC/C=C/C', 'OC(C)=[C@]=C(C)C(=O)O', '[PH5]', '[SH4]', '[SH6]', 'C[PH4]', 'C[SH3]', 'C[SH5]', '[AlH3]', '[BH3]', '[BH4-]', '[NH4+]', '[OH3+]', '[CH3]', '[CH2]', '[OH]',
           'C[O]', 'C[N]C', '[CH3-]', '[CH3+]', '[13CH4]', '[2H]O[2H]', '[18OH2]', 'C[N+](C)(C)C', 'C[N+](=O)[O-]', 'CS(=O)(=O)C', 'CS(C)=O',
           'CP(=O)(O)O', 'O=P(Cl)(Cl)Cl', 'FS(F)(F)(F)(F)F', 'FCl(F)F', 'FI(F)(F)(F)F', 'F[Xe]F', '[Na+].[Cl-]', '[Fe+2]', '[Fe+3].[Cl-].[Cl-].[Cl-]',
